@@ -176,6 +176,9 @@ func c02Rules(p *core.Prog, r *core.Run) {
 		}
 		return false
 	}()
+	// key.Config in the info string is the config exactly as the caller gave it
+	// (a re-serialised config is a different byte string for a non-canonical one)
+	c09Keys(p, r, m, "C02.A4.keys")
 	r.Check("C02.A4", "Open:receiver-non-nil", nilBlocked, p.InstrPos(m.open.Instr), "Open is reached only with a non-nil context")
 	r.Floor("C02.A4", 8)
 
